@@ -82,6 +82,40 @@ pub fn main() {
                 }
             }
         }
+        "refdump" => {
+            // vcheck refdump <hex>: the reference EVM's paths (storage keys with provenance)
+            let code = hex::decode(args[2].trim_start_matches("0x")).expect("hex");
+            let gas = crate::subj::gas_table(&code).unwrap_or_default();
+            let gas_of = |i: usize| gas.get(i).copied().unwrap_or(0);
+            let rr = crate::evmref::run(
+                &code,
+                &crate::evmref::RefCfg {
+                    gas_of: &gas_of,
+                    gas_limit: 30_000_000,
+                    visit_limit: 1,
+                    max_paths: 2_000,
+                    max_steps: 400_000,
+                    selfdestruct_halts: true,
+                },
+            );
+            println!("complete={} paths={}", rr.complete, rr.paths.len());
+            for (i, p) in rr.paths.iter().enumerate() {
+                println!(
+                    "path {i}: end {:?} at {} prov_imprecise={} mem_imprecise={} executed {}",
+                    p.end,
+                    p.end_offset,
+                    p.prov_imprecise,
+                    p.mem_imprecise,
+                    p.executed.len()
+                );
+                for (k, at) in &p.sloads {
+                    println!("   sload at {at}: key {:?} prov {:?}", k.w, rr.provenance(k));
+                }
+                for (k, v, at) in &p.sstores {
+                    println!("   sstore at {at}: key {:?} value {:?} prov {:?}", k.w, v.w, rr.provenance(k));
+                }
+            }
+        }
         "keccak" => {
             // vcheck keccak <hex>: keccak-256 of the bytes
             use sha3::Digest;
